@@ -227,6 +227,10 @@ pub struct BuilderConfig {
     /// east of UTC) instead of as plain seconds; the instant is the same
     #[serde(default)]
     pub source_date_zone: Option<i32>,
+    /// call the metadata setters (source date, compression, ...) AFTER the files were added;
+    /// the order of builder calls must not matter
+    #[serde(default)]
+    pub setters_last: bool,
 }
 
 impl BuilderConfig {
@@ -257,6 +261,7 @@ impl BuilderConfig {
             force_large: false,
             reuse_source: false,
             source_date_zone: None,
+            setters_last: false,
         }
     }
 
@@ -408,6 +413,12 @@ fn build_in(
     files: &[(FileSpec, Vec<u8>)],
 ) -> Result<rpm::Package, rpm::Error> {
     let mut b = rpm::PackageBuilder::new(&cfg.name, &cfg.version, &cfg.license, &cfg.arch, &cfg.summary);
+    if cfg.setters_last {
+        for (i, (f, content)) in files.iter().enumerate() {
+            let (src, opts) = stage_file(dir, if cfg.reuse_source { 0 } else { i }, f, content)?;
+            b = b.with_file(&src, opts)?;
+        }
+    }
     if let Some(e) = cfg.epoch {
         b = b.epoch(e);
     }
@@ -486,9 +497,11 @@ fn build_in(
             _ => b.verify_script(sc),
         };
     }
-    for (i, (f, content)) in files.iter().enumerate() {
-        let (src, opts) = stage_file(dir, if cfg.reuse_source { 0 } else { i }, f, content)?;
-        b = b.with_file(&src, opts)?;
+    if !cfg.setters_last {
+        for (i, (f, content)) in files.iter().enumerate() {
+            let (src, opts) = stage_file(dir, if cfg.reuse_source { 0 } else { i }, f, content)?;
+            b = b.with_file(&src, opts)?;
+        }
     }
     rpm::verif_hooks::set_force_large_files(cfg.force_large);
     let r = match cfg.signer {
@@ -705,8 +718,9 @@ pub struct CfgParams {
 /// like `config_any`, but a quarter of the cases stage all files at one source path that is
 /// rewritten between the calls, with equal mtimes and few distinct sizes
 pub fn config_any_reuse(p: CfgParams) -> BoxedStrategy<BuilderConfig> {
-    (config_any(p), 0u8..4, 0u32..2_000_000_000)
-        .prop_map(|(mut c, r, mtime)| {
+    (config_any(p), 0u8..4, 0u32..2_000_000_000, any::<bool>())
+        .prop_map(|(mut c, r, mtime, setters_last)| {
+            c.setters_last = setters_last;
             if r == 0 && c.files.len() >= 2 {
                 c.reuse_source = true;
                 let base = c.files[0].content.size;
@@ -798,6 +812,7 @@ pub fn config_any(p: CfgParams) -> BoxedStrategy<BuilderConfig> {
                     force_large,
                     reuse_source: false,
                     source_date_zone: None,
+                    setters_last: false,
                 }
             },
         )
